@@ -73,6 +73,25 @@ fn open_pty() -> Option<(i32, std::fs::File)> {
 /// `answer(prompt, kind, how many prompts were answered before)` returns the line to type (without the
 /// newline) or None if the scenario has no answer left (the run is then killed and marked stuck).
 pub fn run_tty(cmd: &Cmd, stdout_is_tty: bool, stdin_file: Option<&std::path::Path>, answer: &mut dyn FnMut(&str, Ask, usize) -> Option<String>) -> TtyRun {
+    run_tty_cfg(cmd, &TtyCfg { stdout_is_tty, controlling: true, stderr_is_pipe: false, blind_lines: vec![] }, stdin_file, answer)
+}
+
+/// Variants of the terminal wiring. `controlling: false` = stdin is a terminal but the process has NO
+/// controlling terminal (started by a session-creating launcher), so /dev/tty cannot be opened and the tool
+/// falls back to reading the password from stdin. `stderr_is_pipe` captures stderr separately (returned at
+/// the end of `transcript` after a marker line). `blind_lines` are typed at once without waiting for
+/// prompts (needed when the prompts do not arrive on the terminal).
+pub struct TtyCfg {
+    pub stdout_is_tty: bool,
+    pub controlling: bool,
+    pub stderr_is_pipe: bool,
+    pub blind_lines: Vec<String>,
+}
+
+pub const STDERR_MARK: &str = "\n-----stderr-----\n";
+
+pub fn run_tty_cfg(cmd: &Cmd, cfg: &TtyCfg, stdin_file: Option<&std::path::Path>, answer: &mut dyn FnMut(&str, Ask, usize) -> Option<String>) -> TtyRun {
+    let stdout_is_tty = cfg.stdout_is_tty;
     let start = Instant::now();
     let fail = |why: &str| TtyRun { exit: Exit::Code(-1), stdout: vec![], transcript: String::new(), answered: vec![], stuck: Some(why.to_string()) };
     let (master, slave) = match open_pty() {
@@ -80,7 +99,10 @@ pub fn run_tty(cmd: &Cmd, stdout_is_tty: bool, stdin_file: Option<&std::path::Pa
         None => return fail("kmon: no pseudo-terminal available"),
     };
     let mut c = Command::new("/usr/bin/setsid");
-    c.arg("-c").arg("-w");
+    if cfg.controlling {
+        c.arg("-c");
+    }
+    c.arg("-w");
     if let Some(f) = stdin_file {
         // the terminal stays the controlling terminal; stdin is then redirected to the file
         c.arg("/bin/sh").arg("-c").arg("exec \"$@\" < \"$KMON_STDIN\"").arg("sh");
@@ -99,7 +121,11 @@ pub fn run_tty(cmd: &Cmd, stdout_is_tty: bool, stdin_file: Option<&std::path::Pa
     match (dup(&slave), dup(&slave)) {
         (Ok(a), Ok(b)) => {
             c.stdin(a);
-            c.stderr(b);
+            if cfg.stderr_is_pipe {
+                c.stderr(Stdio::piped());
+            } else {
+                c.stderr(b);
+            }
         }
         _ => return fail("kmon: dup of the pty slave failed"),
     }
@@ -124,6 +150,19 @@ pub fn run_tty(cmd: &Cmd, stdout_is_tty: bool, stdin_file: Option<&std::path::Pa
     drop(slave);
     let pid = child.id() as i32;
     let stdout_h = child.stdout.take();
+    let stderr_h = child.stderr.take();
+    let err_t = std::thread::spawn(move || {
+        let mut v = Vec::new();
+        if let Some(mut h) = stderr_h {
+            let _ = h.read_to_end(&mut v);
+        }
+        v
+    });
+    for l in &cfg.blind_lines {
+        let mut line = l.clone().into_bytes();
+        line.push(b'\n');
+        unsafe { libc::write(master, line.as_ptr() as *const libc::c_void, line.len()) };
+    }
     let out_t = std::thread::spawn(move || {
         let mut v = Vec::new();
         if let Some(mut h) = stdout_h {
@@ -205,5 +244,11 @@ pub fn run_tty(cmd: &Cmd, stdout_is_tty: bool, stdin_file: Option<&std::path::Pa
     std::mem::forget(child);
     unsafe { libc::close(master) };
     let stdout = out_t.join().unwrap_or_default();
-    TtyRun { exit, stdout, transcript: String::from_utf8_lossy(&raw).replace('\r', ""), answered, stuck }
+    let stderr = err_t.join().unwrap_or_default();
+    let mut transcript = String::from_utf8_lossy(&raw).replace('\r', "");
+    if cfg.stderr_is_pipe {
+        transcript.push_str(STDERR_MARK);
+        transcript.push_str(&String::from_utf8_lossy(&stderr));
+    }
+    TtyRun { exit, stdout, transcript, answered, stuck }
 }
